@@ -26,7 +26,7 @@ NAME_TERMS = _os.environ.get("SYMX_NAME_TERMS", "0") == "1"
 
 
 class Frame:
-    __slots__ = ("func", "env", "ctypes", "rets", "entry_abs", "module", "closure", "loops", "overlays", "self_cls")
+    __slots__ = ("func", "env", "ctypes", "rets", "entry_abs", "module", "closure", "loops", "overlays", "self_cls", "yields")
 
     def __init__(self, func, module, entry_abs, closure=None):
         self.func = func
@@ -38,6 +38,7 @@ class Frame:
         self.closure = closure
         self.loops = []
         self.overlays = []
+        self.yields = None
 
 
 class Loop:
@@ -1324,6 +1325,8 @@ class Interp:
                         fr.ctypes[p.arg] = ct
                         env[p.arg] = self.coerce_arg(env[p.arg], ct, p.arg, f)
             fr.env = env
+            if not isinstance(node, ast.Lambda) and _is_generator(node):
+                fr.yields = []   # generators are evaluated eagerly into a list (finite, no interleaved side effects here)
             if isinstance(node, ast.Lambda):
                 v = self.eval(node.body)
                 fr.rets.append((self.g, v))
@@ -1341,6 +1344,8 @@ class Interp:
             self.mark_live(noexc)
             self.g = g_and(self.g, noexc)
         rets = fr.rets
+        if fr.yields is not None:
+            return list(fr.yields)
         if not rets:
             return None
         v = rets[-1][1]
@@ -1752,6 +1757,15 @@ class Interp:
         self._with_comp_scope(lambda: self._comp(e.generators, 0, lambda: d.set(self.eval(e.key), self.eval(e.value))))
         return d.simplify()
 
+    def e_Yield(self, e):
+        fr = self.frame
+        if fr.yields is None:
+            raise Unsupported("yield outside a generator function")
+        if not self.absg().is_true():
+            raise Unsupported("yield under a symbolic guard")
+        fr.yields.append(self.eval(e.value) if e.value is not None else None)
+        return None
+
     def e_Starred(self, e):
         raise Unsupported("starred expression")
 
@@ -1759,6 +1773,27 @@ class Interp:
         v = self.eval(e.value)
         self.assign(e.target, v)
         return v
+
+
+_gen_cache = {}
+
+
+def _is_generator(node):
+    k = id(node)
+    r = _gen_cache.get(k)
+    if r is None:
+        r = False
+        stack = list(node.body)
+        while stack:
+            x = stack.pop()
+            if isinstance(x, (ast.Yield, ast.YieldFrom)):
+                r = True
+                break
+            if isinstance(x, (ast.FunctionDef, ast.Lambda, ast.ClassDef)):
+                continue
+            stack.extend(ast.iter_child_nodes(x))
+        _gen_cache[k] = r
+    return r
 
 
 class _ChainEnv(dict):
